@@ -314,6 +314,9 @@ where
             }
         }
         assert!(final_state.is_some());
+        // `sg.edges(..)` is a randomly seeded `HashMap`: sort so that the order in which conflicts
+        // are reported (and serialised into generated parsers) does not depend on the hash seed.
+        shift_reduce.sort_by_key(|&(tidx, pidx, stidx)| (stidx, tidx, pidx));
 
         let mut nt_depth = HashMap::new();
         let mut core_reduces = Vob::<u64>::from_elem_with_storage_type(
